@@ -88,6 +88,19 @@ func (e *enc) guardOf(pt types.Type, st *types.Struct, field int, ref string) (s
 	return "", "", false
 }
 
+// escapeObl: a map or slice loaded from a guarded field is handed on (call argument, stored somewhere
+// else, returned, boxed) - whoever receives it can use it without the lock, so handing it on is only
+// accepted inside the critical section (the receiver then works under the caller's lock).
+func (e *enc) escapeObl(ins ssa.Instruction, R string, v ssa.Value, how string) {
+	t, ok := e.taint[v]
+	if !ok {
+		return
+	}
+	lock := t[0]
+	goal := fmt.Sprintf("(or (select %s %s) (select %s %s))", e.heldArr("G_held"), lock, e.heldArr("G_rheld"), lock)
+	e.addI("escape", "guarded-container:"+t[1]+":"+how, ins, R, goal)
+}
+
 func (e *enc) guardObl(ins ssa.Instruction, R, lock, what string, write bool, ref ...string) {
 	held := fmt.Sprintf("(select %s %s)", e.heldArr("G_held"), lock)
 	goal := held
@@ -123,7 +136,12 @@ func (e *enc) loadHook(b *ssa.BasicBlock, i *ssa.UnOp, result string) {
 		return
 	}
 	what := typeShort(pt) + "." + st.Field(fa.Field).Name()
-	e.guardObl(i, e.reach[b], lock, what, false, ref)
+	if arr, _ := e.fieldArr(pt, st, fa.Field); e.w.immutableArr(arr) {
+		// the field itself is only written while its object is under construction: reading the
+		// reference needs no lock, what it refers to (below) does
+	} else {
+		e.guardObl(i, e.reach[b], lock, what, false, ref)
+	}
 	// containers stored in guarded fields are guarded data
 	switch i.Type().Underlying().(type) {
 	case *types.Map, *types.Slice:
@@ -150,6 +168,7 @@ func (e *enc) storeHook(b *ssa.BasicBlock, i *ssa.Store, l loc, v string) {
 			e.assumptions[e.key+" writes the stable field "+l.arr+" of an object that is assumed not to be shared yet"] = true
 		}
 	}
+	e.escapeObl(i, R, i.Val, "stored")
 	if fa, ok := i.Addr.(*ssa.FieldAddr); ok {
 		e.invStoreHook(fa)
 		pt := fa.X.Type().Underlying().(*types.Pointer).Elem()
@@ -164,6 +183,17 @@ func (e *enc) storeHook(b *ssa.BasicBlock, i *ssa.Store, l loc, v string) {
 	if ia, ok := i.Addr.(*ssa.IndexAddr); ok {
 		if t, ok := e.taint[ia.X]; ok {
 			e.guardObl(i, R, t[0], t[1]+"[]", true)
+		}
+		e.invContainerStoreHook(ia.X)
+	}
+}
+
+// invContainerStoreHook: an element of a slice or map that was loaded from a field an invariant talks
+// about is written: the owning object has to satisfy its invariant when control leaves.
+func (e *enc) invContainerStoreHook(c ssa.Value) {
+	if u, ok := c.(*ssa.UnOp); ok {
+		if fa, ok := u.X.(*ssa.FieldAddr); ok {
+			e.invStoreHook(fa)
 		}
 	}
 }
@@ -180,6 +210,9 @@ func (e *enc) mapWriteHook(b *ssa.BasicBlock, ins ssa.Instruction, m string) {
 	}
 	if t, ok := e.taint[mv]; ok {
 		e.guardObl(ins, e.reach[b], t[0], t[1]+"[]", true)
+	}
+	if mv != nil {
+		e.invContainerStoreHook(mv)
 	}
 }
 
@@ -282,6 +315,9 @@ func (e *enc) callHook(ins ssa.Instruction, key string, callee *ssa.Function, R 
 
 // returnHook: lock balance — every lock this function touched is in the state it was found in.
 func (e *enc) returnHook(b *ssa.BasicBlock, r *ssa.Return, R string) {
+	for _, rv := range r.Results {
+		e.escapeObl(r, R, rv, "returned")
+	}
 	e.invReturnObls(r, R)
 	if e.fc != nil && e.fc.Opts["lock-effect"] != "" {
 		return // the contract's ensures describe how the lock set changes (e.g. a deferred release)
@@ -369,6 +405,10 @@ func (e *enc) invLoadHook(b *ssa.BasicBlock, fa *ssa.FieldAddr) {
 			continue
 		}
 		e.invDone[k] = true
+		if e.usedTypeInvs == nil {
+			e.usedTypeInvs = map[string]bool{}
+		}
+		e.usedTypeInvs[td.Pkg+"."+td.Type] = true
 		e.invBusy = true
 		t, err := e.invTerm(c, pt, ref, e.heap)
 		e.invBusy = false
@@ -467,4 +507,69 @@ func nonnilTerm(sort, v string) string {
 		return "true"
 	}
 	return ""
+}
+
+// invWriterFields: the fields of the type its invariants talk about.
+func invWriterFields(td *TypeDecl) map[string]bool {
+	fs := map[string]bool{}
+	for _, c := range td.Invs {
+		selfFields(c.Expr, fs)
+	}
+	return fs
+}
+
+// touchesField: the function stores to one of the fields of an object of the declared type, or into a
+// map / slice loaded from one (writesOnly), or accesses such a field in any way.
+func touchesField(f *ssa.Function, td *TypeDecl, fields map[string]bool, writesOnly bool) bool {
+	if len(fields) == 0 {
+		return false
+	}
+	isField := func(v ssa.Value) bool {
+		fa, ok := v.(*ssa.FieldAddr)
+		if !ok {
+			return false
+		}
+		pt, ok := fa.X.Type().Underlying().(*types.Pointer)
+		if !ok {
+			return false
+		}
+		n, ok := pt.Elem().(*types.Named)
+		if !ok || n.Obj().Pkg() == nil || n.Obj().Pkg().Name() != td.Pkg || n.Obj().Name() != td.Type {
+			return false
+		}
+		st, ok := n.Underlying().(*types.Struct)
+		return ok && fields[st.Field(fa.Field).Name()]
+	}
+	loaded := func(v ssa.Value) bool {
+		u, ok := v.(*ssa.UnOp)
+		return ok && isField(u.X)
+	}
+	for _, b := range f.Blocks {
+		for _, ins := range b.Instrs {
+			if !writesOnly {
+				if fa, ok := ins.(*ssa.FieldAddr); ok && isField(fa) {
+					return true
+				}
+				continue
+			}
+			switch x := ins.(type) {
+			case *ssa.Store:
+				if isField(x.Addr) {
+					return true
+				}
+				if ia, ok := x.Addr.(*ssa.IndexAddr); ok && loaded(ia.X) {
+					return true
+				}
+			case *ssa.MapUpdate:
+				if loaded(x.Map) {
+					return true
+				}
+			case ssa.CallInstruction:
+				if bi, ok := x.Common().Value.(*ssa.Builtin); ok && bi.Name() == "delete" && len(x.Common().Args) > 0 && loaded(x.Common().Args[0]) {
+					return true
+				}
+			}
+		}
+	}
+	return false
 }
